@@ -4,6 +4,9 @@
 * a linear normal form (with opaque `mod c` atoms for // and %) of integer weight expressions: equality and difference are decided on the forms
 * dependency closure of names (which parameters can a value depend on)
 * unrolling of comprehensions over literal tuples
+* value domains of job-spec fields read off the validator
+* who may cancel an awaitable that is handed to it (per-module parameter exposure, closed under wrappers; C16 R5)
+* freshness of returned objects: which levels of a function's result persist across calls, and where consumers mutate them (C15 R7)
 """
 from __future__ import annotations
 
@@ -400,3 +403,714 @@ def field_required(root: Schema, path: Sequence[str]) -> Optional[bool]:
             return None
         cur, req = cur.fields[p][0], cur.fields[p][1]
     return req
+
+
+# --------------------------------------------------------------------------------------
+# who may cancel an awaitable that is handed to it (C16 R5)
+# --------------------------------------------------------------------------------------
+
+class ModFuncs:
+    """Functions of one module by qualified name, with resolution of `f(...)` / `self.m(...)` callees through the class hierarchy declared in the module."""
+
+    def __init__(self, m: pf.Module):
+        self.m = m
+        self.by_q: Dict[str, pf.FuncDef] = dict(m.functions())
+        self.classes: Dict[str, ast.ClassDef] = {c.name: c for c in m.tree.body if isinstance(c, ast.ClassDef)}
+
+    def class_of(self, q: str) -> Optional[str]:
+        parts = q.split('.')
+        return parts[0] if len(parts) >= 2 and parts[0] in self.classes else None
+
+    def bases(self, cname: str) -> List[str]:
+        c = self.classes.get(cname)
+        return [b.id for b in c.bases if isinstance(b, ast.Name) and b.id in self.classes] if c is not None else []
+
+    def lookup_method(self, cname: str, name: str, _seen: Optional[Set[str]] = None) -> Optional[str]:
+        seen = _seen if _seen is not None else set()
+        if cname in seen:
+            return None
+        seen.add(cname)
+        if f'{cname}.{name}' in self.by_q:
+            return f'{cname}.{name}'
+        for b in self.bases(cname):
+            r = self.lookup_method(b, name, seen)
+            if r is not None:
+                return r
+        return None
+
+    def subclasses(self, cname: str) -> List[str]:
+        out: List[str] = []
+        work = [cname]
+        while work:
+            c = work.pop()
+            for k in self.classes:
+                if c in self.bases(k) and k not in out:
+                    out.append(k)
+                    work.append(k)
+        return out
+
+    def receiver_name(self, q: str) -> Optional[str]:
+        fn = self.by_q.get(q)
+        if fn is None or self.class_of(q) is None or q.count('.') != 1 or not fn.args.args:
+            return None
+        if any(d in ('staticmethod',) for d in pf.decorator_names(fn)):
+            return None
+        return fn.args.args[0].arg
+
+    def resolve(self, q_caller: str, func: ast.AST) -> List[str]:
+        """Qualified names the callee expression can denote ([] = not resolved).  `self.m` denotes the method found from the caller's class
+        upwards, and every override in a subclass of it."""
+        if isinstance(func, ast.Name):
+            # a function nested in the caller (or an enclosing function) shadows the module-level one
+            parts = q_caller.split('.')
+            for i in range(len(parts), 0, -1):
+                cand = '.'.join(parts[:i] + [func.id])
+                if cand in self.by_q and '.'.join(parts[:i]) in self.by_q:
+                    return [cand]
+            return [func.id] if func.id in self.by_q else []
+        if isinstance(func, ast.Attribute) and isinstance(func.value, ast.Name):
+            # the receiver of the (outermost) method the caller is nested in
+            parts = q_caller.split('.')
+            cname = self.class_of(q_caller)
+            if cname is None:
+                return []
+            recv = self.receiver_name('.'.join(parts[:2]))
+            if recv is None or func.value.id != recv:
+                return []
+            base = self.lookup_method(cname, func.attr)
+            out = [base] if base is not None else []
+            for s in self.subclasses(cname):
+                if f'{s}.{func.attr}' in self.by_q and f'{s}.{func.attr}' not in out:
+                    out.append(f'{s}.{func.attr}')
+            return out
+        return []
+
+    def bind(self, q_callee: str, call: ast.Call) -> Dict[str, ast.expr]:
+        """parameter name of the callee -> argument expression of the call (arguments after a starred one are not bound)."""
+        fn = self.by_q[q_callee]
+        params = [a.arg for a in fn.args.posonlyargs + fn.args.args]
+        if self.receiver_name(q_callee) is not None and isinstance(call.func, ast.Attribute):
+            params = params[1:]
+        out: Dict[str, ast.expr] = {}
+        for p, a in zip(params, call.args):
+            if isinstance(a, ast.Starred):
+                break
+            out[p] = a
+        names = set(params) | {a.arg for a in fn.args.kwonlyargs}
+        for k in call.keywords:
+            if k.arg is not None and k.arg in names:
+                out[k.arg] = k.value
+        return out
+
+
+_TASK_MAKERS = ('create_task', 'ensure_future')
+_TIMEOUT_CMS = ('timeout', 'timeout_at', 'fail_after', 'move_on_after')
+
+
+def is_timeout_cm(e: ast.AST) -> bool:
+    """`asyncio.timeout(..)`, `async_timeout.timeout(..)`, `anyio.fail_after(..)` ... as the context expression of an `async with`."""
+    if not isinstance(e, ast.Call):
+        return False
+    d = pf.dotted(e.func) or ''
+    return d.split('.')[-1] in _TIMEOUT_CMS
+
+
+def _awaitable_of(e: ast.AST, names: Set[str]) -> Optional[str]:
+    """e is `p(...)` (p called to make the coroutine) or `p` (already an awaitable) for a name p in names."""
+    if isinstance(e, ast.Call) and isinstance(e.func, ast.Name) and e.func.id in names:
+        return e.func.id
+    if isinstance(e, ast.Name) and e.id in names:
+        return e.id
+    return None
+
+
+def _direct_cancels(fn: pf.FuncDef) -> Dict[str, str]:
+    """Parameters of fn whose awaitable fn itself may cancel: run as a task that fn `.cancel()`s, passed to wait_for, awaited under a timeout block."""
+    params = {a.arg for a in fn.args.posonlyargs + fn.args.args + fn.args.kwonlyargs}
+    out: Dict[str, str] = {}
+    tasks: Dict[str, str] = {}  # task variable -> parameter
+    for n in pf.walk_shallow(fn):
+        if isinstance(n, ast.Assign) and len(n.targets) == 1 and isinstance(n.targets[0], ast.Name) and isinstance(n.value, ast.Call) \
+                and (pf.dotted(n.value.func) or '').split('.')[-1] in _TASK_MAKERS and n.value.args:
+            p = _awaitable_of(n.value.args[0], params)
+            if p is not None:
+                tasks[n.targets[0].id] = p
+    loops: Dict[str, Set[str]] = {}  # loop variable -> names in the iterated display
+    for n in pf.walk_shallow(fn):
+        if isinstance(n, (ast.For, ast.AsyncFor)) and isinstance(n.target, ast.Name) and isinstance(n.iter, (ast.Tuple, ast.List, ast.Set)):
+            loops.setdefault(n.target.id, set()).update(x.id for x in n.iter.elts if isinstance(x, ast.Name))
+    for c in pf.calls_in(fn):
+        d = pf.dotted(c.func) or ''
+        if isinstance(c.func, ast.Attribute) and c.func.attr == 'cancel' and isinstance(c.func.value, ast.Name) and not c.args:
+            x = c.func.value.id
+            for t in ([x] if x in tasks else []) + sorted(loops.get(x, set()) & set(tasks)):
+                out.setdefault(tasks[t], f'runs it as the task `{t}` and cancels that task (`{pf.nsrc(c)}`, line {c.lineno}) when something else finishes first')
+        if d.split('.')[-1] == 'wait_for' and c.args:
+            a = c.args[0]
+            p = _awaitable_of(a, params) or (tasks.get(a.id) if isinstance(a, ast.Name) else None)
+            if p is not None:
+                out.setdefault(p, f'passes it to `{d}` (line {c.lineno}), which cancels it when the timeout expires')
+    for n in pf.walk_shallow(fn):
+        if isinstance(n, ast.AsyncWith) and any(is_timeout_cm(i.context_expr) for i in n.items):
+            for x in ast.walk(ast.Module(body=n.body, type_ignores=[])):
+                if isinstance(x, ast.Await):
+                    p = _awaitable_of(x.value, params)
+                    if p is not None:
+                        out.setdefault(p, f'awaits it inside `async with {pf.nsrc(n.items[0].context_expr)}` (line {n.lineno}), which cancels it when the timeout expires')
+    return out
+
+
+def cancel_exposed(mf: ModFuncs) -> Dict[str, Dict[str, str]]:
+    """qualified function name -> {parameter: how the awaitable made from that parameter may be cancelled on its own}, closed under passing the
+    parameter on to another such function of the module (thin wrappers)."""
+    exp: Dict[str, Dict[str, str]] = {}
+    for q, fn in mf.by_q.items():
+        d = _direct_cancels(fn)
+        if d:
+            exp[q] = d
+    changed = True
+    rounds = 0
+    while changed and rounds < 6:
+        changed = False
+        rounds += 1
+        for q, fn in mf.by_q.items():
+            params = {a.arg for a in fn.args.posonlyargs + fn.args.args + fn.args.kwonlyargs}
+            for c in pf.calls_in(fn):
+                tg = mf.resolve(q, c.func)
+                if not tg or not all(t in exp for t in tg):
+                    continue
+                for cp in set.intersection(*[set(exp[t]) for t in tg]):
+                    a = mf.bind(tg[0], c).get(cp)
+                    if isinstance(a, ast.Name) and a.id in params and a.id not in exp.get(q, {}):
+                        exp.setdefault(q, {})[a.id] = f'hands it to {tg[0]}, which {exp[tg[0]][cp]}'
+                        changed = True
+    return exp
+
+
+def handover_verdict(mf: ModFuncs, exp: Dict[str, Dict[str, str]], q_site: str, recv_call: ast.Call, handed: ast.AST) -> Tuple[str, str]:
+    """`handed` (a bound method / coroutine object) is an argument of `recv_call` inside function q_site.
+    ('cancels', how) | ('unknown', why) | ('passes', callee) when the callee is resolved and does not cancel that parameter."""
+    d = pf.dotted(recv_call.func) or pf.nsrc(recv_call.func)
+    last = d.split('.')[-1]
+    if last == 'wait_for' and recv_call.args and recv_call.args[0] is handed:
+        return 'cancels', f'`{d}` cancels it when the timeout expires'
+    if last == 'shield':
+        return 'unknown', f'`{d}` detaches it from the caller'
+    if last in _TASK_MAKERS and recv_call.args and recv_call.args[0] is handed:
+        # the task handle: a local that the same function cancels, or an attribute that anybody in the module cancels
+        par = mf.m.parents()
+        st = par.get(recv_call)
+        fn = mf.by_q.get(q_site)
+        if isinstance(st, ast.Assign) and len(st.targets) == 1 and fn is not None:
+            tgt = st.targets[0]
+            if isinstance(tgt, ast.Name):
+                loops: Set[str] = set()
+                for n in pf.walk_shallow(fn):
+                    if isinstance(n, (ast.For, ast.AsyncFor)) and isinstance(n.target, ast.Name) and isinstance(n.iter, (ast.Tuple, ast.List, ast.Set)) \
+                            and any(isinstance(x, ast.Name) and x.id == tgt.id for x in n.iter.elts):
+                        loops.add(n.target.id)
+                for c in pf.calls_in(fn):
+                    if isinstance(c.func, ast.Attribute) and c.func.attr == 'cancel' and isinstance(c.func.value, ast.Name) and c.func.value.id in loops | {tgt.id}:
+                        return 'cancels', f'it runs as the task `{tgt.id}`, which {q_site} cancels (`{pf.nsrc(c)}`, line {c.lineno})'
+            elif isinstance(tgt, ast.Attribute):
+                for c in ast.walk(mf.m.tree):
+                    if isinstance(c, ast.Call) and isinstance(c.func, ast.Attribute) and c.func.attr == 'cancel' and isinstance(c.func.value, ast.Attribute) \
+                            and c.func.value.attr == tgt.attr:
+                        return 'may-cancel', f'it runs as the task stored in `.{tgt.attr}`, and `{pf.nsrc(c)}` (line {c.lineno}) cancels a task of that name'
+        return 'unknown', f'it becomes a task of its own (`{d}`); who cancels that task is not analysed'
+    if last in _TASK_MAKERS or last in ('gather', 'wait', 'as_completed'):
+        return 'unknown', f'it becomes a task of its own (`{d}`); who cancels that task is not analysed'
+    tg = mf.resolve(q_site, recv_call.func)
+    if not tg:
+        return 'unknown', f'the callee `{d}` is not a function of this module'
+    hows = []
+    for t in tg:
+        cp = [p for p, a in mf.bind(t, recv_call).items() if a is handed]
+        if len(cp) != 1:
+            return 'unknown', f'cannot tell which parameter of {t} receives it'
+        if cp[0] in exp.get(t, {}):
+            hows.append(f'{t} {exp[t][cp[0]]}')
+        else:
+            hows.append('')
+    if all(hows):
+        return 'cancels', hows[0]
+    if not any(hows):
+        return 'passes', tg[0]
+    return 'unknown', f'only some of {tg} cancel what they are given'
+
+
+# --------------------------------------------------------------------------------------
+# freshness of decoded values (C15 R7): does a reader hand out an object that outlives the call (memoised / kept in module state)?
+# --------------------------------------------------------------------------------------
+
+MEMO_DECORATORS = {'functools.lru_cache', 'functools.cache', 'functools.cached_property', 'cachetools.cached', 'cachetools.func.lru_cache',
+                   'cachetools.func.ttl_cache', 'cachetools.func.lfu_cache', 'async_lru.alru_cache', 'methodtools.lru_cache'}
+HARMLESS_DECORATORS = {'staticmethod', 'classmethod', 'typing.overload', 'overload', 'typing.no_type_check', 'typing.final', 'final'}
+_CONTAINER_CTORS = {'dict', 'list', 'set', 'collections.defaultdict', 'defaultdict', 'collections.OrderedDict', 'OrderedDict', 'weakref.WeakValueDictionary',
+                    'WeakValueDictionary', 'cachetools.LRUCache', 'LRUCache', 'cachetools.TTLCache', 'TTLCache'}
+_SCALAR_CALLS = {'bool', 'int', 'str', 'float', 'len', 'repr', 'isinstance', 'hash', 'min', 'max', 'sum', 'any', 'all', 'abs', 'round'}
+_SHALLOW_COPY_CALLS = {'list', 'tuple', 'dict', 'set', 'frozenset', 'sorted', 'copy.copy', 'reversed'}
+MUTATORS = {'append', 'extend', 'insert', 'pop', 'remove', 'clear', 'sort', 'reverse', 'update', 'setdefault', 'popitem', 'add', 'discard', '__setitem__', '__delitem__'}
+
+
+def decorator_full_name(m: pf.Module, d: ast.AST) -> Optional[str]:
+    e = d.func if isinstance(d, ast.Call) else d
+    dn = pf.dotted(e)
+    if dn is None:
+        return None
+    head, _, rest = dn.partition('.')
+    full = m.imports().get(head, head).lstrip('.')
+    return full + ('.' + rest if rest else '')
+
+
+def memo_decorator(m: pf.Module, d: ast.AST) -> Optional[str]:
+    full = decorator_full_name(m, d)
+    return full if full in MEMO_DECORATORS else None
+
+
+def static_mut_depth(e: ast.AST) -> Optional[int]:
+    """Mutable nesting depth of a literal (module-level constant / default value): 0 = immutable."""
+    if isinstance(e, ast.Constant):
+        return 0
+    if isinstance(e, (ast.List, ast.Set, ast.Tuple)):
+        ds = [static_mut_depth(x) for x in e.elts]
+        if any(d is None for d in ds):
+            return None
+        inner = max([0] + ds)  # type: ignore[operator]
+        return 0 if isinstance(e, ast.Tuple) and inner == 0 else inner + 1
+    if isinstance(e, ast.Dict):
+        ds = [static_mut_depth(v) for v in e.values]
+        return None if any(d is None for d in ds) else max([0] + ds) + 1  # type: ignore[operator]
+    if isinstance(e, ast.Call) and (pf.dotted(e.func) or '') in _CONTAINER_CTORS and not e.args and not e.keywords:
+        return 1
+    if isinstance(e, ast.Call) and (pf.dotted(e.func) or '') in ('frozenset', 'tuple') and not e.args:
+        return 0
+    return None
+
+
+class Freshness:
+    """Which levels of the object returned by a function are objects that persist across calls (level 1 = the returned container itself, 2 = its
+    elements / values, ...).  Exact on the recognised shapes; None = not decided."""
+
+    def __init__(self, m: pf.Module):
+        self.m = m
+        self.mf = ModFuncs(m)
+        self.globals: Dict[str, ast.expr] = {}
+        for st in m.tree.body:
+            if isinstance(st, ast.Assign) and len(st.targets) == 1 and isinstance(st.targets[0], ast.Name):
+                self.globals[st.targets[0].id] = st.value
+            elif isinstance(st, ast.AnnAssign) and isinstance(st.target, ast.Name) and st.value is not None:
+                self.globals[st.target.id] = st.value
+        self._ret: Dict[str, Optional[int]] = {}
+
+    # -- the call cone of a function -----------------------------------------------------
+    def cone(self, q: str, depth: int = 3) -> List[str]:
+        out = [q]
+        work = [(q, 0)]
+        while work:
+            cur, d = work.pop()
+            if d >= depth or cur not in self.mf.by_q:
+                continue
+            for c in pf.calls_in(self.mf.by_q[cur]):
+                for t in self.mf.resolve(cur, c.func):
+                    if t not in out:
+                        out.append(t)
+                        work.append((t, d + 1))
+        return out
+
+    @staticmethod
+    def _param_default(fn: pf.FuncDef, name: str) -> Optional[ast.expr]:
+        pos = fn.args.posonlyargs + fn.args.args
+        for a, d in zip(pos[len(pos) - len(fn.args.defaults):], fn.args.defaults):
+            if a.arg == name:
+                return d
+        for a, d in zip(fn.args.kwonlyargs, fn.args.kw_defaults):
+            if a.arg == name and d is not None:
+                return d
+        return None
+
+    def memo_of(self, q: str) -> Optional[str]:
+        for d in self.mf.by_q[q].decorator_list:
+            n = memo_decorator(self.m, d)
+            if n is not None:
+                return n
+        return None
+
+    def unknown_decorators(self, q: str) -> List[str]:
+        out = []
+        for d in self.mf.by_q[q].decorator_list:
+            full = decorator_full_name(self.m, d)
+            if memo_decorator(self.m, d) is None and full not in HARMLESS_DECORATORS:
+                out.append(pf.nsrc(d))
+        return out
+
+    def persistent_globals(self, qs: Sequence[str]) -> Dict[str, List[Tuple[str, ast.AST]]]:
+        """module-level containers the given functions STORE into: name -> [(function, stored value expression)]"""
+        out: Dict[str, List[Tuple[str, ast.AST]]] = {}
+        for q in qs:
+            fn = self.mf.by_q[q]
+            local = set(pf.assignments(fn))
+            declared_global = {n_ for s in pf.walk_shallow(fn) if isinstance(s, ast.Global) for n_ in s.names}
+            for n in pf.walk_shallow(fn):
+                g, val = None, None
+                if isinstance(n, ast.Assign) and len(n.targets) == 1 and isinstance(n.targets[0], ast.Subscript) and isinstance(n.targets[0].value, ast.Name):
+                    g, val = n.targets[0].value.id, n.value
+                elif isinstance(n, ast.Call) and isinstance(n.func, ast.Attribute) and isinstance(n.func.value, ast.Name) and n.func.attr in ('setdefault', '__setitem__') and len(n.args) == 2:
+                    g, val = n.func.value.id, n.args[1]
+                if g is not None and g in self.globals and (g not in local or g in declared_global):
+                    out.setdefault(g, []).append((q, val))  # type: ignore[arg-type]
+                elif g is not None and self._param_default(fn, g) is not None and (static_mut_depth(self._param_default(fn, g)) or 0) >= 1:  # type: ignore[arg-type]
+                    out.setdefault(g, []).append((q, val))  # type: ignore[arg-type]
+        return out
+
+    def instance_state_writes(self, qs: Sequence[str]) -> List[str]:
+        out = []
+        for q in qs:
+            fn = self.mf.by_q[q]
+            recv = self.mf.receiver_name(q)
+            if recv is None:
+                continue
+            for n in pf.walk_shallow(fn):
+                tgt = None
+                if isinstance(n, ast.Attribute) and isinstance(n.ctx, (ast.Store, ast.Del)) and isinstance(n.value, ast.Name) and n.value.id == recv:
+                    tgt = n
+                elif isinstance(n, ast.Subscript) and isinstance(n.ctx, (ast.Store, ast.Del)) and isinstance(n.value, ast.Attribute) and isinstance(n.value.value, ast.Name) \
+                        and n.value.value.id == recv:
+                    tgt = n
+                elif isinstance(n, ast.Call) and isinstance(n.func, ast.Attribute) and n.func.attr in MUTATORS and isinstance(n.func.value, ast.Attribute) \
+                        and isinstance(n.func.value.value, ast.Name) and n.func.value.value.id == recv:
+                    tgt = n
+                if tgt is not None:
+                    out.append(f'{q}: `{pf.nsrc(tgt)[:60]}`')
+        return out
+
+    # -- how deep is the value mutable -------------------------------------------------------
+    def _arg_owned(self, q: str, e: ast.AST, env: Dict[str, object]) -> bool:
+        """e is (part of) an argument of the function: a parameter, a comprehension/loop variable over one, a subscript / attribute / .get of one."""
+        fn = self.mf.by_q[q]
+        params = {a.arg for a in fn.args.posonlyargs + fn.args.args + fn.args.kwonlyargs}
+        for _ in range(8):
+            if isinstance(e, ast.Name):
+                if e.id in params or env.get(e.id) == 'arg':
+                    return True
+                defs = pf.assignments(fn).get(e.id, [])
+                if len(defs) != 1:
+                    return False
+                d = defs[0]
+                if isinstance(d, (ast.For, ast.comprehension)):
+                    e = d.iter
+                elif isinstance(d, ast.Assign) and not isinstance(d.targets[0], ast.Name):
+                    e = d.value   # tuple unpacking: an element of the unpacked value
+                elif isinstance(d, ast.expr):
+                    e = d
+                else:
+                    return False
+            elif isinstance(e, (ast.Subscript, ast.Attribute)):
+                e = e.value
+            elif isinstance(e, ast.Call) and isinstance(e.func, ast.Attribute) and e.func.attr == 'get':
+                e = e.func.value
+            else:
+                return False
+        return False
+
+    def mut_depth(self, q: str, e: ast.AST, env: Optional[Dict[str, object]] = None, stack: Tuple[str, ...] = ()) -> Optional[int]:
+        env = env or {}
+        fn = self.mf.by_q[q]
+
+        def mx(xs: List[Optional[int]]) -> Optional[int]:
+            return None if any(x is None for x in xs) else max([0] + [x for x in xs if x is not None])
+        if isinstance(e, (ast.Constant, ast.Compare, ast.JoinedStr)) or (isinstance(e, ast.UnaryOp) and isinstance(e.op, ast.Not)):
+            return 0
+        if self._arg_owned(q, e, env):
+            return 0
+        if isinstance(e, ast.Name):
+            defs = pf.assignments(fn).get(e.id, [])
+            if not defs:
+                return None
+            return mx([self.mut_depth(q, d, env, stack) if isinstance(d, ast.expr) else None for d in defs])
+        if isinstance(e, (ast.BoolOp,)):
+            return mx([self.mut_depth(q, v, env, stack) for v in e.values])
+        if isinstance(e, ast.IfExp):
+            return mx([self.mut_depth(q, e.body, env, stack), self.mut_depth(q, e.orelse, env, stack)])
+        if isinstance(e, (ast.List, ast.Set, ast.Tuple)):
+            inner = mx([self.mut_depth(q, x, env, stack) for x in e.elts])
+            if inner is None:
+                return None
+            return inner + 1 if not (isinstance(e, ast.Tuple) and inner == 0) else 0
+        if isinstance(e, ast.Dict):
+            inner = mx([self.mut_depth(q, v, env, stack) for v in e.values])
+            return None if inner is None else inner + 1
+        if isinstance(e, (ast.ListComp, ast.SetComp, ast.GeneratorExp, ast.DictComp)):
+            env2 = dict(env)
+            for g in e.generators:
+                if not self._arg_owned(q, g.iter, env2):
+                    return None
+                for x in ast.walk(g.target):
+                    if isinstance(x, ast.Name):
+                        env2[x.id] = 'arg'
+            inner = self.mut_depth(q, e.value if isinstance(e, ast.DictComp) else e.elt, env2, stack)
+            return None if inner is None else inner + 1
+        if isinstance(e, ast.Call):
+            d = pf.dotted(e.func) or ''
+            if d in _SCALAR_CALLS:
+                return 0
+            tg = self.mf.resolve(q, e.func)
+            if len(tg) == 1 and tg[0] not in stack and len(stack) < 4:
+                return self.ret_depth(tg[0], stack + (q,))
+        return None
+
+    def ret_depth(self, q: str, stack: Tuple[str, ...] = ()) -> Optional[int]:
+        if q in self._ret:
+            return self._ret[q]
+        fn = self.mf.by_q[q]
+        rets = [n.value for n in pf.walk_shallow(fn) if isinstance(n, ast.Return) and n.value is not None]
+        ds = [self.mut_depth(q, r, None, stack) for r in rets]
+        out = None if any(d is None for d in ds) else max([0] + [d for d in ds if d is not None])
+        self._ret[q] = out
+        return out
+
+    # -- which levels of the returned object are persistent ----------------------------------------
+    def shared(self, q: str, e: ast.AST, pg: Dict[str, List[Tuple[str, ast.AST]]], env: Optional[Dict[str, Set[int]]] = None, stack: Tuple[str, ...] = ()) -> Optional[Set[int]]:
+        env = env or {}
+        fn = self.mf.by_q[q]
+        params = {a.arg for a in fn.args.posonlyargs + fn.args.args + fn.args.kwonlyargs}
+
+        def union(xs: List[Optional[Set[int]]]) -> Optional[Set[int]]:
+            if any(x is None for x in xs):
+                return None
+            out: Set[int] = set()
+            for x in xs:
+                out |= x  # type: ignore[arg-type]
+            return out
+
+        def down(s: Optional[Set[int]]) -> Optional[Set[int]]:     # an element of the object
+            return None if s is None else {k - 1 for k in s if k >= 2}
+
+        def up(s: Optional[Set[int]]) -> Optional[Set[int]]:       # a fresh container around it
+            return None if s is None else {k + 1 for k in s}
+
+        def shallow(s: Optional[Set[int]]) -> Optional[Set[int]]:  # a shallow copy of it
+            return None if s is None else {k for k in s if k >= 2}
+
+        def global_levels(g: str) -> Optional[Set[int]]:
+            ds = []
+            for fq, val in pg.get(g, []):
+                reads_g = any(isinstance(x, ast.Name) and x.id == g for x in ast.walk(val))
+                if not reads_g:
+                    ds.append(self.mut_depth(fq, val))
+            if not ds or any(d is None for d in ds):
+                return None
+            return set(range(1, max(ds) + 1))  # type: ignore[type-var]
+        if isinstance(e, (ast.Constant, ast.Compare, ast.JoinedStr, ast.UnaryOp, ast.BinOp)):
+            return set()
+        if isinstance(e, ast.Name):
+            if e.id in env:
+                return set(env[e.id])
+            if e.id in pg:
+                return global_levels(e.id)
+            if e.id in params:
+                dflt = self._param_default(fn, e.id)
+                if dflt is None:
+                    return set()
+                dd = static_mut_depth(dflt)  # a mutable default value is ONE object for all calls
+                return None if dd is None else set(range(1, dd + 1))
+            defs = pf.assignments(fn).get(e.id, [])
+            if not defs:
+                if e.id not in self.globals:
+                    return set()
+                dd = static_mut_depth(self.globals[e.id])  # a module-level constant: one object for all calls
+                return None if dd is None else set(range(1, dd + 1))
+            outs: List[Optional[Set[int]]] = []
+            for d in defs:
+                if isinstance(d, (ast.For, ast.comprehension)) and isinstance(d.target, ast.Name):
+                    outs.append(down(self.shared(q, d.iter, pg, env, stack)))
+                elif isinstance(d, ast.Assign) and not isinstance(d.targets[0], ast.Name):
+                    outs.append(down(self.shared(q, d.value, pg, env, stack)))
+                elif isinstance(d, ast.expr):
+                    if any(isinstance(x, ast.Name) and x.id == e.id for x in ast.walk(d)):
+                        return None
+                    outs.append(self.shared(q, d, pg, env, stack))
+                else:
+                    return None
+            return union(outs)
+        if isinstance(e, (ast.BoolOp,)):
+            return union([self.shared(q, v, pg, env, stack) for v in e.values])
+        if isinstance(e, ast.IfExp):
+            return union([self.shared(q, e.body, pg, env, stack), self.shared(q, e.orelse, pg, env, stack)])
+        if isinstance(e, ast.Await):
+            return self.shared(q, e.value, pg, env, stack)
+        if isinstance(e, ast.Starred):
+            return self.shared(q, e.value, pg, env, stack)
+        if isinstance(e, (ast.List, ast.Tuple, ast.Set)):
+            parts = [shallow(self.shared(q, x.value, pg, env, stack)) if isinstance(x, ast.Starred) else up(self.shared(q, x, pg, env, stack)) for x in e.elts]
+            return union(parts)
+        if isinstance(e, ast.Dict):
+            parts = [shallow(self.shared(q, v, pg, env, stack)) if k is None else up(self.shared(q, v, pg, env, stack)) for k, v in zip(e.keys, e.values)]
+            return union(parts)
+        if isinstance(e, (ast.ListComp, ast.SetComp, ast.GeneratorExp, ast.DictComp)):
+            env2 = dict(env)
+            for g in e.generators:
+                it = down(self.shared(q, g.iter, pg, env2, stack))
+                if it is None:
+                    return None
+                if isinstance(g.target, ast.Name):
+                    env2[g.target.id] = it
+                else:
+                    for x in ast.walk(g.target):
+                        if isinstance(x, ast.Name):
+                            env2[x.id] = {k - 1 for k in it if k >= 2}
+            return up(self.shared(q, e.value if isinstance(e, ast.DictComp) else e.elt, pg, env2, stack))
+        if isinstance(e, ast.Subscript):
+            if isinstance(e.value, ast.Name) and e.value.id in pg and e.value.id not in env:
+                return global_levels(e.value.id)
+            return down(self.shared(q, e.value, pg, env, stack))
+        if isinstance(e, ast.Attribute):
+            return None if isinstance(e.value, ast.Name) and e.value.id == (self.mf.receiver_name(q) or '') and e.attr != 'format_version' else set()
+        if isinstance(e, ast.Call):
+            d = pf.dotted(e.func) or ''
+            if d in _SCALAR_CALLS:
+                return set()
+            if d in ('copy.deepcopy', 'deepcopy') and len(e.args) == 1:
+                return set()
+            if d in _SHALLOW_COPY_CALLS and len(e.args) == 1 and all(k.arg in ('key', 'reverse') for k in e.keywords):
+                return shallow(self.shared(q, e.args[0], pg, env, stack))
+            if isinstance(e.func, ast.Attribute) and e.func.attr == 'copy' and not e.args:
+                return shallow(self.shared(q, e.func.value, pg, env, stack))
+            if isinstance(e.func, ast.Attribute) and isinstance(e.func.value, ast.Name) and e.func.value.id in pg and e.func.attr in ('get', 'setdefault', 'pop'):
+                return global_levels(e.func.value.id)
+            tg = self.mf.resolve(q, e.func)
+            if tg:
+                if len(tg) != 1 or tg[0] in stack or len(stack) >= 4:
+                    return None
+                t = tg[0]
+                if self.unknown_decorators(t):
+                    return None
+                if self.memo_of(t) is not None:
+                    dd = self.ret_depth(t)
+                    return None if dd is None else set(range(1, dd + 1))
+                rets = [n.value for n in pf.walk_shallow(self.mf.by_q[t]) if isinstance(n, ast.Return) and n.value is not None]
+                return union([self.shared(t, r, pg, None, stack + (q,)) for r in rets])
+            if isinstance(e.func, ast.Attribute) and e.func.attr in ('get', 'items', 'values', 'keys'):
+                return down(self.shared(q, e.func.value, pg, env, stack)) if e.func.attr == 'get' else None
+            # a call into code outside the module: fresh unless something persistent is passed through it
+            inner = union([self.shared(q, a, pg, env, stack) for a in list(e.args) + [k.value for k in e.keywords]])
+            return set() if inner == set() else None
+        return None
+
+
+class Witness:
+    def __init__(self, level: int, rel: str, func: str, line: int, text: str):
+        self.level, self.rel, self.func, self.line, self.text = level, rel, func, line, text
+
+
+def reader_mutations(m: pf.Module, reader: str) -> Tuple[int, List[Witness]]:
+    """(number of call sites of `<x>.<reader>(...)` in m, places where a consumer MUTATES the object the reader returned: level 1 = the returned container itself
+    (append / item assignment), level 2 = one of its elements).  Flow-insensitive aliasing through locals, dict literals (`d = {'k': r}` ... `d['k']`, `d.get('k')`),
+    for/zip targets; a mutation through a loop variable counts only inside the loop that binds it."""
+    out: List[Witness] = []
+    n_sites = 0
+    if reader not in m.src:
+        return 0, out
+    par = m.parents()
+    hits = [c for c in ast.walk(m.tree) if isinstance(c, ast.Call) and isinstance(c.func, ast.Attribute) and c.func.attr == reader]
+    fns: List[pf.FuncDef] = []
+    for h in hits:
+        f = m.enclosing_func(h)
+        if f is not None and not any(f is x for x in fns):
+            fns.append(f)
+    for fn in fns:
+        q = m.qualname(fn)
+        seeds = [c for c in pf.calls_in(fn) if isinstance(c.func, ast.Attribute) and c.func.attr == reader]
+        if not seeds:
+            continue
+        n_sites += len(seeds)
+        names: Dict[str, int] = {}
+        keys: Dict[Tuple[str, str], int] = {}
+        loopvars: Dict[str, List[ast.AST]] = {}
+
+        def level(e: ast.AST) -> Optional[int]:
+            if any(e is s for s in seeds):
+                return 1
+            if isinstance(e, ast.Await):
+                return level(e.value)
+            if isinstance(e, ast.Name):
+                return names.get(e.id)
+            if isinstance(e, ast.Subscript) and isinstance(e.value, ast.Name):
+                k = pf.const_str(e.slice)
+                if k is not None:
+                    return keys.get((e.value.id, k))
+            if isinstance(e, ast.Call) and isinstance(e.func, ast.Attribute) and e.func.attr == 'get' and isinstance(e.func.value, ast.Name) and e.args:
+                k = pf.const_str(e.args[0])
+                if k is not None:
+                    return keys.get((e.func.value.id, k))
+            if isinstance(e, ast.BoolOp):
+                ls = [level(v) for v in e.values if level(v) is not None]
+                return ls[0] if ls else None
+            return None
+
+        def bind(target: ast.AST, it: ast.AST, loop: ast.AST) -> bool:
+            ch = False
+            if isinstance(it, ast.Call) and pf.dotted(it.func) == 'enumerate' and it.args and isinstance(target, ast.Tuple) and len(target.elts) == 2:
+                return bind(target.elts[1], it.args[0], loop)
+            if isinstance(it, ast.Call) and pf.dotted(it.func) == 'zip' and isinstance(target, ast.Tuple) and len(target.elts) == len(it.args):
+                for t, a in zip(target.elts, it.args):
+                    ch = bind(t, a, loop) or ch
+                return ch
+            l = level(it)
+            if l is not None and isinstance(target, ast.Name) and names.get(target.id) != l + 1:
+                names[target.id] = l + 1
+                loopvars.setdefault(target.id, []).append(loop)
+                ch = True
+            return ch
+        changed = True
+        rounds = 0
+        while changed and rounds < 6:
+            changed = False
+            rounds += 1
+            for n in pf.walk_shallow(fn):
+                if isinstance(n, ast.Assign) and len(n.targets) == 1:
+                    t, v = n.targets[0], n.value
+                    if isinstance(t, ast.Name):
+                        l = level(v)
+                        if l is not None and names.get(t.id) != l:
+                            names[t.id] = l
+                            changed = True
+                        if isinstance(v, ast.Dict):
+                            for k, vv in zip(v.keys, v.values):
+                                ks = pf.const_str(k) if k is not None else None
+                                lv = level(vv)
+                                if ks is not None and lv is not None and keys.get((t.id, ks)) != lv:
+                                    keys[(t.id, ks)] = lv
+                                    changed = True
+                    elif isinstance(t, ast.Subscript) and isinstance(t.value, ast.Name) and pf.const_str(t.slice) is not None:
+                        lv = level(v)
+                        if lv is not None and keys.get((t.value.id, pf.const_str(t.slice))) != lv:  # type: ignore[arg-type]
+                            keys[(t.value.id, pf.const_str(t.slice))] = lv  # type: ignore[index]
+                            changed = True
+                elif isinstance(n, (ast.For, ast.AsyncFor)):
+                    changed = bind(n.target, n.iter, n) or changed
+
+        def inside(node: ast.AST, loops: List[ast.AST]) -> bool:
+            cur = par.get(node)
+            while cur is not None and cur is not fn:
+                if any(cur is lp for lp in loops):
+                    return True
+                cur = par.get(cur)
+            return False
+
+        def lvl_at(x: ast.AST, node: ast.AST) -> Optional[int]:
+            l = level(x)
+            if l is not None and isinstance(x, ast.Name) and x.id in loopvars and not inside(node, loopvars[x.id]):
+                return None
+            return l
+        for n in pf.walk_shallow(fn):
+            if isinstance(n, ast.Subscript) and isinstance(n.ctx, (ast.Store, ast.Del)):
+                l = lvl_at(n.value, n)
+                if l is not None:
+                    st = par.get(n)
+                    out.append(Witness(l, m.rel, q, n.lineno, pf.nsrc(st if isinstance(st, (ast.Assign, ast.AugAssign, ast.Delete)) else n)[:70]))
+            elif isinstance(n, ast.Call) and isinstance(n.func, ast.Attribute) and n.func.attr in MUTATORS:
+                l = lvl_at(n.func.value, n)
+                if l is not None:
+                    out.append(Witness(l, m.rel, q, n.lineno, pf.nsrc(n)[:70]))
+    return n_sites, out
